@@ -250,6 +250,12 @@ func (conR *ConsensusReactor) Receive(chID byte, src *p2p.Peer, msgBytes []byte)
 		}
 		switch msg := msg.(type) {
 		case *ProposalMessage:
+			// The peer-state bookkeeping below allocates one bit per announced block part,
+			// before any signature is checked: refuse impossible part counts.
+			if msg.Proposal == nil || msg.Proposal.BlockPartsHeader.Total < 0 || msg.Proposal.BlockPartsHeader.Total > types.MaxBlockSize {
+				log.Warnw("Ignoring proposal with an impossible block parts header", "src", src)
+				return
+			}
 			ps.SetHasProposal(msg.Proposal)
 			conR.conS.peerMsgQueue <- msgInfo{msg, src.Key}
 		case *ProposalPOLMessage:
